@@ -214,3 +214,18 @@ M('C07', 'sketchy-init-ekfac-slot', SK, "              inv_prev_tail=jnp.zeros(t
 M('C07', 'sm3-momentum-unquantized', SM3, "        ParameterStats(diagonal_stats, _quantize_momentum(momentum)),", "        ParameterStats(diagonal_stats, momentum),")
 M('C07', 'new-unbound-local', TS, "  p = len(meta.param_shape) * 2\n\n  with jax.named_scope(\"PthInvRoot\"):", "  if meta.large_axes:\n    p = len(meta.param_shape) * 2\n\n  with jax.named_scope(\"PthInvRoot\"):")
 TW('C07', 'twin-init-helper-inline', DS, "          init_avg_grad(param, frequent_directions and average_grad),\n          init_training_metrics(\n              len(statistics),", "          (jnp.zeros_like(param) if (frequent_directions and average_grad) else optax.MaskedNode()),\n          init_training_metrics(\n              len(statistics),")
+
+# ------------------------------------------------------------------ C08
+M(['C08', 'C15'], 'F7-global-eig-cutoff', TS, "  mask = w <= eps * jnp.max(w, axis=-1, keepdims=True)", "  mask = w <= eps * jnp.max(w)")
+M('C08', 'cutoff-over-blocks-axis', TS, "  mask = w <= eps * jnp.max(w, axis=-1, keepdims=True)", "  mask = w <= eps * jnp.max(w, axis=0, keepdims=True)")
+M('C08', 'root-normalised-by-global-norm', TS, "  return jnp.einsum(\"bik,bjk->bij\", half_v, half_v)", "  return jnp.einsum(\"bik,bjk->bij\", half_v, half_v) / jnp.linalg.norm(w)")
+M('C08', 'root-einsum-drops-block-letter', TS, "  return jnp.einsum(\"bik,bjk->bij\", half_v, half_v)", "  return jnp.einsum(\"bik,cjk->bij\", half_v, half_v)")
+M('C08', 'ema-mean-over-blocks', TS, "  return old * decay + new * (1 - decay)", "  return old * decay + jnp.mean(new, axis=0, keepdims=True) * (1 - decay)")
+M('C08', 'stats-vmap-wrong-axis', TS, "          dot_all, in_axes=meta.blocks_axis, out_axes=0", "          dot_all, in_axes=0, out_axes=0")
+M('C08', 'precondition-einsum-blocks-letter-position', TS, "  blocked_output.insert(meta.blocks_axis, blocks_axis_letter)", "  blocked_output.insert(0, blocks_axis_letter)")
+M('C08', 'precondition-einsum-roots-swapped-letters', TS, "      blocks_axis_letter + o + c\n      for c, o in zip(contraction_letters, output_letters)", "      blocks_axis_letter + o + c\n      for c, o in zip(contraction_letters, reversed(output_letters))")
+M('C08', 'ds-normalise-by-global-max', DS, "    all_statistics = batch(packed_statistics, num_devices)\n", "    all_statistics = batch(packed_statistics, num_devices)\n    all_statistics = all_statistics / jnp.max(all_statistics)\n")
+M('C08', 'ds-errors-max-over-stats', DS, "    new_errors_flat = metrics_flat.inverse_pth_root_errors\n    for p, shape, prev_p, error in zip(preconditioners_flat, original_shapes,\n                                       prev_preconditioners, new_errors_flat):\n      new_preconditioners_flat.append(\n          _select_preconditioner(error, p[:shape[0], :shape[1]], prev_p))\n\n    assert len(states) == len(num_statistics_per_state)\n    assert len(new_preconditioners_flat) == num_statistics\n    assert len(new_errors_flat) == len(packed_statistics)",
+  "    new_errors_flat = metrics_flat.inverse_pth_root_errors\n    worst = jnp.max(jnp.stack(new_errors_flat))\n    for p, shape, prev_p, error in zip(preconditioners_flat, original_shapes,\n                                       prev_preconditioners, new_errors_flat):\n      new_preconditioners_flat.append(\n          _select_preconditioner(worst, p[:shape[0], :shape[1]], prev_p))\n\n    assert len(states) == len(num_statistics_per_state)\n    assert len(new_preconditioners_flat) == num_statistics\n    assert len(new_errors_flat) == len(packed_statistics)")
+M(['C08', 'C01'], 'eigh-mask-not-flipped', DS, "    e *= jnp.flip(ix)\n  mm = functools.partial(jnp.matmul, precision=precision)", "    e *= ix\n  mm = functools.partial(jnp.matmul, precision=precision)")
+TW('C08', 'twin-cutoff-amax', TS, "  mask = w <= eps * jnp.max(w, axis=-1, keepdims=True)", "  top = jnp.max(w, axis=1, keepdims=True)\n  mask = w <= eps * top")
